@@ -37,4 +37,13 @@ def main(argv=None):
 
 
 if __name__ == "__main__":
-  sys.exit(main())
+  try:
+    code = main()
+  except SystemExit:
+    raise
+  except BaseException:  # pylint: disable=broad-except
+    import traceback
+    traceback.print_exc()
+    print("HARNESS-ERROR: uncaught exception in the runner")
+    code = 2
+  sys.exit(code)
